@@ -158,6 +158,13 @@ theorem callbacks_once_in_order [DecidableEq V] {t : Tables} (ht : TablesOk t) (
     · rw [hrun, h2, step_calls]
       simp [history, List.append_assoc]
 
+/-- the monitor the driver runs on recorded histories of the implementation decides the specification: it answers
+`none` exactly when the recorded history satisfies `Mirrors` from the empty cache and registry -/
+theorem judge_iff [DecidableEq V] (t : Tables) (mp : Maps) (imp : Str → Str → J → Option V) (behave : Call V → Outcome)
+    (steps : List (Ev J × List (Call V) × Cache V)) :
+    judge t mp imp behave steps = none ↔ Mirrors t mp imp behave [] [] steps :=
+  judgeFrom_iff t mp imp behave 0 [] [] steps
+
 /-! ## End to end -/
 
 /-- **e2e_read**: a value the driver returned (`r`), exported by the node, sent in a `reply`, `changed` or `update`
